@@ -312,26 +312,65 @@ def _rule3(ctx, rep):
         # (a) security.sanctioned: every path through an except handler, and the fall-through, returns False
         f = prog.nfunc('dawgie.security.sanctioned')
         rep.analysed(f)
-        fl = _FailClosed()
-        out = fl.run(f.node, 'normal')
+        # value-tag flow: state = (mode, frozenset((var, tag))) with mode normal/exc and tags hookfn / hook / false / other
+        class FC(Flow):
+            def __init__(s):
+                super().__init__()
+                s.returns = []
+                s.hook_calls = []
+
+            @staticmethod
+            def tag(e, env):
+                if isinstance(e, ast.Constant):
+                    return 'false' if e.value is False else 'other'
+                if isinstance(e, ast.Name):
+                    return dict(env).get(e.id, 'other')
+                if isinstance(e, ast.Call):
+                    if call_name(e) == '_lookup':
+                        return 'hookfn'
+                    fn = e.func
+                    if (isinstance(fn, ast.Call) and call_name(fn) == '_lookup') or (isinstance(fn, ast.Name) and dict(env).get(fn.id) == 'hookfn'):
+                        return 'hook'
+                return 'other'
+
+            def on_call(s, call, st):
+                if s.tag(call, st[1]) == 'hook':
+                    s.hook_calls.append((call, st[0], bool(s._try)))
+                return (st,)
+
+            def on_stmt(s, node, st):
+                mode, env = st
+                if isinstance(node, ast.Assign) and len(node.targets) == 1 and isinstance(node.targets[0], ast.Name):
+                    d = dict(env)
+                    d[node.targets[0].id] = s.tag(node.value, env)
+                    return ((mode, frozenset(d.items())),)
+                return (st,)
+
+            def on_handler(s, h, st):
+                # whatever was assigned inside the try body may or may not have happened
+                mode, env = st
+                return (('exc', frozenset((k, v) for k, v in env if v in ('false', 'hookfn'))),)
+
+            def on_return(s, node, st):
+                s.returns.append((node, st[0], s.tag(node.value, st[1]) if node.value is not None else 'none'))
+                return (st,)
+
+        fl = FC()
+        out = fl.run(f.node, ('normal', frozenset()))
         r.instance()
-        bad = []
-        for node, st in fl.returns:
-            if st == 'exc' and not (isinstance(node.value, ast.Constant) and node.value.value is False):
-                bad.append(node)
-        if out.normal:  # falls off the end -> returns None (falsy): acceptable
-            pass
-        # the final return after the try must be the constant False
-        last = f.node.body[-1]
-        tail_ok = isinstance(last, ast.Return) and isinstance(last.value, ast.Constant) and last.value.value is False
+        bad = [node for node, mode, tg in fl.returns if mode == 'exc' and tg not in ('false', 'none')]
+        # the verdict handed back on the normal path is the hook's own value (or False)
+        tail_ok = all(tg in ('hook', 'false', 'none') for _n, mode, tg in fl.returns if mode == 'normal')
         trys = [n for n in f.own_nodes() if isinstance(n, ast.Try)]
         catch_all = any(
             h.type is None or (isinstance(h.type, ast.Name) and h.type.id in ('Exception', 'BaseException'))
             for t in trys
             for h in t.handlers
         )
-        hook_calls = [c for c in f.calls() if isinstance(c.func, ast.Call) and call_name(c.func) == '_lookup']
-        in_try = any(any(c is x for x in ast.walk(ast.Module(body=t.body, type_ignores=[]))) for t in trys for c in hook_calls)
+        hook_calls = fl.hook_calls
+        in_try = bool(hook_calls) and all(intry for _c, _m, intry in hook_calls)
+        lookups = [c for c in f.calls() if call_name(c) == '_lookup']
+        in_try = in_try and all(any(any(c is x for x in ast.walk(ast.Module(body=t.body, type_ignores=[]))) for t in trys) for c in lookups)
         r.check(
             not bad and tail_ok and catch_all and hook_calls and in_try,
             'dawgie.security.sanctioned:fail-closed',
@@ -410,9 +449,18 @@ def _rule3(ctx, rep):
                 super().__init__()
                 self.rets = []
 
+            def on_stmt(self, s, st):
+                # boolean local holding a test: is_anonymous = cert is None
+                if isinstance(s, ast.Assign) and len(s.targets) == 1 and isinstance(s.targets[0], ast.Name) and isinstance(s.value, (ast.Compare, ast.BoolOp, ast.UnaryOp, ast.Call)):
+                    self.alias = getattr(self, 'alias', {})
+                    self.alias[s.targets[0].id] = s.value
+                return (st,)
+
             def on_test(self, e, st):
                 cl, cn, li = st
                 txt = norm(e)
+                if isinstance(e, ast.Name) and e.id in getattr(self, 'alias', {}):
+                    return self.cond(self.alias[e.id], {st})
                 if isinstance(e, ast.Call) and call_name(e) in ('clients', 'use_client_verification'):
                     return ((True, cn, li),) if cl in ('?', True) else (), ((False, cn, li),) if cl in ('?', False) else ()
                 if txt == 'cert is None':
@@ -427,6 +475,15 @@ def _rule3(ctx, rep):
                 return (st,), (st,)
 
             def on_return(self, node, st):
+                v = node.value
+                if isinstance(v, (ast.Compare, ast.BoolOp, ast.UnaryOp)) or (isinstance(v, ast.Name) and v.id in getattr(self, 'alias', {})):
+                    # `return <test>`: the returned value is the truth of the test
+                    t, f = self.cond(v, {st})
+                    for s2 in t:
+                        self.rets.append((ast.Return(value=ast.Constant(value=True)), s2))
+                    for s2 in f:
+                        self.rets.append((ast.Return(value=ast.Constant(value=False)), s2))
+                    return (st,)
                 self.rets.append((node, st))
                 return (st,)
 
